@@ -64,6 +64,8 @@ Definition user_facets (a b : user) : list Z :=
       beqb (u_orefresh a) (u_orefresh b) && near (u_oexp a) (u_oexp b) then [] else [157]) ++
   (if beqb (u_pid a) (u_pid b) && beqb (u_email a) (u_email b) && aeqb (u_arb a) (u_arb b) then [] else [158]).
 
+Definition user_eqb (a b : user) : bool := match user_facets a b with [] => true | _ => false end.
+
 Fixpoint users_facets (a b : list user) : list Z :=
   match a, b with
   | [], [] => []
